@@ -376,6 +376,16 @@ func runMain(args []string) int {
 		}
 	}
 
+	notObserved := []string{}
+	if p.ExpectTags != nil {
+		for _, t := range p.ExpectTags(*tier) {
+			if st.agg.Tags[t] == 0 {
+				notObserved = append(notObserved, t)
+			}
+		}
+	}
+	notObservedGlobal = notObserved
+
 	ids := []string{}
 	for id := range knownSeen {
 		ids = append(ids, id)
@@ -428,6 +438,9 @@ func runMain(args []string) int {
 		if i < 5 {
 			fmt.Println("  inconclusive:", s)
 		}
+	}
+	if len(notObserved) > 0 {
+		fmt.Printf("  NOT-OBSERVED (implementation-dependent mechanisms; the clauses monitored through them were not exercised this run): %s\n", strings.Join(notObserved, ", "))
 	}
 	if len(unlisted) > 0 {
 		return 1
@@ -644,6 +657,8 @@ func isDeadlockDump(dump string) bool {
 // ---------------------------------------------------------------------------
 // evidence
 
+var notObservedGlobal []string
+
 func writeEvidence(p *core.Prop, tier string, seed uint64, st *runState, wall float64, unlisted, totalViol int, known map[string]int, harnessErr string) {
 	cov := map[string]interface{}{
 		"evaluations":         st.evals,
@@ -698,6 +713,9 @@ func writeEvidence(p *core.Prop, tier string, seed uint64, st *runState, wall fl
 		for k, v := range p.Extra(&st.agg) {
 			cov[k] = v
 		}
+	}
+	if len(notObservedGlobal) > 0 {
+		cov["not_observed"] = notObservedGlobal
 	}
 	if harnessErr != "" {
 		cov["harness_error"] = harnessErr
